@@ -197,6 +197,11 @@ def check_statements(stmts, metamorphic=True):
             for b in ancestors(a):
                 if b in pos and pos[b] > pos[a]:
                     return "under %s statement %s runs before %s, on which it (transitively) depends" % (val, a, b)
+    # loops belong to single statements: two statements must never share one loop node (fusing the
+    # loops of s1 and s2 would interleave their iterations although s2 depends on all of s1)
+    shared = astwalk.shared_loops(ast)
+    if shared:
+        return "statements %s share one loop node" % sorted(shared[0])
     if metamorphic:
         base = astwalk.serialise(ast)
         n = len(stmts)
@@ -226,7 +231,7 @@ def check_case(case):
 
 def sig_of(msg):
     for key in ("raised", "cannot be walked", "rejects the lowered tree", "generic backend walker executes",
-                "executed twice", "tree executes", "sits in loops", "whose counter", "runs before", "depends on the order", "frozenset"):
+                "executed twice", "tree executes", "sits in loops", "whose counter", "share one loop node", "runs before", "depends on the order", "frozenset"):
         if key in msg:
             return key
     return msg[:40]
